@@ -113,6 +113,12 @@ def nd_getitem(ex, arr, key, prefer_vec=False):
     # boolean mask of the full shape
     if isinstance(key, NDArray) and key.dtype == "bool":
         if key.ndim == arr.ndim:
+            for a_, b_ in zip(key.shape, arr.shape):
+                if not (isinstance(a_, int) and isinstance(b_, int) and a_ == b_):
+                    ex.ctx.check_or_raise(to_z3(a_) == to_z3(b_), "IndexError",
+                                          "boolean index did not match indexed array")
+                elif a_ != b_:
+                    raise SymRaise("IndexError", "boolean index did not match indexed array")
             return MaskedSel(key, arr)
         if key.ndim == 1 and arr.ndim >= 1:
             from .parents import bool_index_axis0
